@@ -147,30 +147,29 @@ pub fn explore(base: &[u8], bound: u8) -> vcommon::e2::E2Result {
     vcommon::e2::explore_opt(VM { backing: Arc::new(DnaString::from_bytes(base)), base: base.to_vec(), bound }, None)
 }
 
-/// E1: Hamming distance of equal-length views for every length / offset / strand / difference set
-pub fn hamming_case(len: usize, off: usize, ra: bool, diff: &[usize]) -> Option<String> {
-    let base: S = (0..len + off + 3).map(|i| ((i * 5 + 1 + i / 7) % 4) as u8).collect();
-    let mut b2 = base.clone();
+/// a view that reads exactly `m`, placed at backing offset `off`, stored on the given strand
+fn view_of(m: &[u8], off: usize, stored_rc: bool, salt: usize) -> (DnaString, usize, bool) {
+    let body: S = if stored_rc { rc(m) } else { m.to_vec() };
+    let mut backing: S = (0..off).map(|i| ((i * 3 + salt) % 4) as u8).collect();
+    backing.extend_from_slice(&body);
+    backing.extend((0..3).map(|i| ((i + salt) % 4) as u8));
+    (DnaString::from_bytes(&backing), off, stored_rc)
+}
+
+/// E1: Hamming distance of equal-length views for every length / offset pair / strand pair / difference set
+pub fn hamming_case(len: usize, off_a: usize, off_b: usize, ra: bool, rb: bool, diff: &[usize]) -> Option<String> {
+    let m: S = (0..len).map(|i| ((i * 5 + 1 + i / 7) % 4) as u8).collect();
+    let mut m2 = m.clone();
     for &p in diff {
-        // position p of the VIEW: map to the backing
-        let q = if ra { off + len - 1 - p } else { off + p };
-        b2[q] = (b2[q] + 1) % 4;
+        m2[p] = (m2[p] + 1) % 4;
     }
-    let (a, b) = (DnaString::from_bytes(&base), DnaString::from_bytes(&b2));
-    let (sa, sb) = (a.slice(off, off + len), b.slice(off, off + len));
-    let (sa, sb) = if ra { (sa.rc(), sb.rc()) } else { (sa, sb) };
-    let got = sa.hamming_dist(&sb);
-    if got as usize != diff.len() || sb.hamming_dist(&sa) != got {
-        return Some(format!("len {} offset {} rc {} differing view positions {:?}: hamming_dist = {}", len, off, ra, if diff.len() > 6 { &diff[..6] } else { diff }, got));
-    }
-    // mixed strands: forward view of one string against the rc view of the reverse-complemented other
-    let rcb = DnaString::from_bytes(&rc(&b2));
-    let start = b2.len() - off - len;
-    let sc = rcb.slice(start, start + len).rc();
-    let sa2 = a.slice(off, off + len);
-    let want = diff.len();
-    if !ra && sa2.hamming_dist(&sc) as usize != want {
-        return Some(format!("len {} offset {} forward vs rc-of-rc view, {} differences: hamming_dist = {}", len, off, want, sa2.hamming_dist(&sc)));
+    let (da, oa, _) = view_of(&m, off_a, ra, 1);
+    let (db, ob, _) = view_of(&m2, off_b, rb, 2);
+    let sa = if ra { da.slice(oa, oa + len).rc() } else { da.slice(oa, oa + len) };
+    let sb = if rb { db.slice(ob, ob + len).rc() } else { db.slice(ob, ob + len) };
+    let (g1, g2) = (sa.hamming_dist(&sb), sb.hamming_dist(&sa));
+    if g1 as usize != diff.len() || g2 != g1 {
+        return Some(format!("len {} offsets ({}, {}) rc ({}, {}) differing view positions {:?}: hamming_dist = {} / {} (other way round)", len, off_a, off_b, ra, rb, if diff.len() > 6 { &diff[..6] } else { diff }, g1, g2));
     }
     None
 }
@@ -183,35 +182,41 @@ fn hamming(rep: &mut Report, quick: bool) {
     } else {
         lens.extend([4096]);
     }
-    let mut cases: Vec<(usize, usize, bool, Vec<usize>)> = vec![];
+    let offs = [0usize, 1, 31, 32, 33];
+    let mut cases: Vec<(usize, usize, usize, bool, bool, Vec<usize>)> = vec![];
     for &len in &lens {
-        for off in [0usize, 1, 31, 32, 33] {
-            for ra in [false, true] {
-                cases.push((len, off, ra, vec![]));
-                if len > 0 {
-                    cases.push((len, off, ra, (0..len).collect()));
-                    if len >= 2 {
-                        cases.push((len, off, ra, vec![0, len - 1]));
-                    }
-                    let singles: Vec<usize> = if quick && len > 1100 { (0..len).filter(|p| *p < 40 || *p % 31 == 0 || *p % 32 == 0 || *p + 40 >= len).collect() } else { (0..len).collect() };
-                    for p in singles {
-                        cases.push((len, off, ra, vec![p]));
+        for oa in offs {
+            for ob in offs {
+                for (ra, rb) in [(false, false), (true, true), (false, true), (true, false)] {
+                    // every single position only for equal offsets and for the aligned/unaligned corner pairs
+                    let full = oa == ob || (oa == 0 && ob == 1) || (oa == 33 && ob == 32) || (oa == 32 && ob == 31);
+                    cases.push((len, oa, ob, ra, rb, vec![]));
+                    if len > 0 {
+                        cases.push((len, oa, ob, ra, rb, (0..len).collect()));
+                        if len >= 2 {
+                            cases.push((len, oa, ob, ra, rb, vec![0, len - 1]));
+                        }
+                        let singles: Vec<usize> = if !full || (quick && len > 1100) { (0..len).filter(|p| *p < 3 || *p % 31 == 0 || *p % 32 == 0 || *p + 3 >= len).collect() } else { (0..len).collect() };
+                        for p in singles {
+                            cases.push((len, oa, ob, ra, rb, vec![p]));
+                        }
                     }
                 }
             }
         }
     }
-    let fails: Vec<(usize, usize, bool, Vec<usize>, String)> = cases.par_iter().filter_map(|(l, o, r, d)| std::panic::catch_unwind(|| hamming_case(*l, *o, *r, d)).unwrap_or(Some("hamming_dist panicked".into())).map(|m| (*l, *o, *r, d.clone(), m))).collect();
+    let fails: Vec<(usize, usize, usize, bool, bool, Vec<usize>, String)> = cases.par_iter().filter_map(|(l, oa, ob, ra, rb, d)| std::panic::catch_unwind(|| hamming_case(*l, *oa, *ob, *ra, *rb, d)).unwrap_or(Some("hamming_dist panicked".into())).map(|m| (*l, *oa, *ob, *ra, *rb, d.clone(), m))).collect();
     rep.count("hamming:cases", cases.len() as u64);
     rep.count("hamming:cases_len_ge_1024", cases.iter().filter(|c| c.0 >= 1024).count() as u64);
+    rep.count("hamming:cases_with_different_offsets_or_strands", cases.iter().filter(|c| c.1 != c.2 || c.3 != c.4).count() as u64);
     rep.states += cases.len() as u64;
     rep.evaluations += cases.len() as u64;
     rep.transitions += cases.len() as u64 * 2;
-    rep.nontrivial += cases.iter().filter(|c| !c.3.is_empty()).count() as u64;
+    rep.nontrivial += cases.iter().filter(|c| !c.5.is_empty()).count() as u64;
     let mut fails = fails;
     fails.sort();
-    for (l, o, r, d, m) in fails.into_iter().take(5) {
-        rep.violation(Violation { signature: "hamming-dist-wrong".into(), case: json!({"hamming": {"len": l, "offset": o, "rc": r, "diff": d}}), detail: m });
+    for (l, oa, ob, ra, rb, d, m) in fails.into_iter().take(5) {
+        rep.violation(Violation { signature: "hamming-dist-wrong".into(), case: json!({"hamming": {"len": l, "offset_a": oa, "offset_b": ob, "rc_a": ra, "rc_b": rb, "diff": d}}), detail: m });
     }
 }
 
@@ -259,8 +264,8 @@ pub fn check(tier: &str, rep: &mut Report) {
     rep.nontrivial += tot_u / 2;
     hamming(rep, quick);
     rep.sample(json!({"backing": "len 33 counter", "history": ["init slice(1, 33)", "Rc", "Slice(2, 30)", "Rc"], "invariant": "len/get/iter/bytes/ascii/to_dna_string/Display/Debug/to_owned/==/hamming 0 and 1/get_kmer+iter_kmers for K in {3,4,16,32} == substring model"}));
-    rep.sample(json!({"hamming": {"len": 1025, "offset": 33, "rc": true, "diff": [0]}}));
-    rep.rule = format!("E2: backing strings = ALL strings of length 0..{} plus counter strings of length 7, 33, 70, 300; init states = prefix(k), suffix(k), slice(a,b) at boundary coordinates; actions rc() and slice(x,y) at boundary coordinates of the current view; {} compositions deep (depth in the state key); invariant: the view reads, renders (bytes, ASCII, text, Debug for len<256), converts, compares and yields k-mers exactly as the model substring. E1: hamming_dist for lengths 0..70, 95..97, 127..129, 255..257, 1023..1025, 2047..2049, 4096 (thorough: up to 5000), offsets {{0,1,31,32,33}}, both strands and a mixed-strand pair, difference sets none / all / first+last / EVERY single position (quick: a boundary-dense subset for lengths > 1100). distinct_nontrivial = half of the view states (views of length >= 2, counted conservatively) + Hamming cases with >= 1 difference", if quick { 5 } else { 7 }, bound);
+    rep.sample(json!({"hamming": {"len": 1025, "offset_a": 32, "offset_b": 33, "rc_a": false, "rc_b": true, "diff": [0]}}));
+    rep.rule = format!("E2: backing strings = ALL strings of length 0..{} plus counter strings of length 7, 33, 70, 300; init states = prefix(k), suffix(k), slice(a,b) at boundary coordinates; actions rc() and slice(x,y) at boundary coordinates of the current view; {} compositions deep (depth in the state key); invariant: the view reads, renders (bytes, ASCII, text, Debug for len<256), converts, compares and yields k-mers exactly as the model substring. E1: hamming_dist for lengths 0..70, 95..97, 127..129, 255..257, 1023..1025, 2047..2049, 4096 (thorough: up to 5000), EVERY pair of offsets from {{0,1,31,32,33}} for the two operands, all four strand combinations, both argument orders, difference sets none / all / first+last / single positions (EVERY position for equal offsets and three aligned/unaligned corner pairs, block-boundary positions otherwise; quick: boundary-dense subset for lengths > 1100). distinct_nontrivial = half of the view states (views of length >= 2, counted conservatively) + Hamming cases with >= 1 difference", if quick { 5 } else { 7 }, bound);
     rep.assumptions.push("view compositions are depth-bounded".into());
     rep.floor("hamming:cases_len_ge_1024", 1000);
     rep.floor("views:unique_states", 5000);
@@ -271,7 +276,7 @@ pub fn check(tier: &str, rep: &mut Report) {
 pub fn replay(c: &Value) -> Vec<String> {
     if let Some(h) = c.get("hamming") {
         let d: Vec<usize> = h["diff"].as_array().map(|a| a.iter().map(|x| x.as_u64().unwrap() as usize).collect()).unwrap_or_default();
-        return hamming_case(h["len"].as_u64().unwrap() as usize, h["offset"].as_u64().unwrap() as usize, h["rc"].as_bool().unwrap(), &d).into_iter().collect();
+        return hamming_case(h["len"].as_u64().unwrap() as usize, h["offset_a"].as_u64().unwrap() as usize, h["offset_b"].as_u64().unwrap() as usize, h["rc_a"].as_bool().unwrap(), h["rc_b"].as_bool().unwrap(), &d).into_iter().collect();
     }
     let b = from_ascii(c["model"]["backing"].as_str().unwrap_or(""));
     let bound = c["model"]["bound"].as_u64().unwrap_or(3) as u8;
